@@ -15,6 +15,7 @@ type GenCfg struct {
 	Forest        bool // allow several top-level elements / top-level text (scripted route only)
 	Numeric       bool // bias text/attribute values towards numerals
 	NoNS          bool // no namespaces at all
+	Undeclare     bool // allow xmlns="" (an unprefixed, no-namespace element below a default namespace)
 	XMLEverywhere bool // emit the xml binding on every element (as the XML adapter does)
 	Names         []string
 	Values        []string
@@ -164,16 +165,29 @@ func (g *gen) element(parent *Node, depth int, scope []binding, top bool) *Node 
 	for i := len(scope) - 1; i >= 0; i-- {
 		if !seen[scope[i].prefix] {
 			seen[scope[i].prefix] = true
-			usable = append(usable, scope[i])
+			if scope[i].uri != "" {
+				usable = append(usable, scope[i])
+			}
 		}
 	}
 	defURI, hasDef := lookup(scope, "")
 	if len(usable) > 0 && rapid.Bool().Draw(g.t, "elemInNS") {
 		b := usable[rapid.IntRange(0, len(usable)-1).Draw(g.t, "elemBinding")]
 		n.Space, n.Prefix = b.uri, b.prefix
-	} else if hasDef {
-		// an unprefixed element would be in the default namespace
-		n.Space, n.Prefix = defURI, ""
+	} else if hasDef && defURI != "" {
+		declaredHere := false
+		for _, d := range n.Decls {
+			if d.Local == "" {
+				declaredHere = true
+			}
+		}
+		if g.cfg.Undeclare && !declaredHere && rapid.Bool().Draw(g.t, "undeclareDefault") {
+			n.Decls = append(n.Decls, Event{K: "N", Local: "", Value: ""})
+			scope = append(scope, binding{"", ""})
+		} else {
+			// an unprefixed element would be in the default namespace
+			n.Space, n.Prefix = defURI, ""
+		}
 	}
 	// attributes
 	na := rapid.IntRange(0, 5).Draw(g.t, "nAttrs") - 2
